@@ -157,6 +157,9 @@ impl Gossip {
         if let Some((to_gossip_tx, from_gossip_tx, guard)) = self.senders.read().await.get(&topic)
             && guard.has_subscriptions()
         {
+            #[cfg(p2panda_p2panda_verif)]
+            p2panda_core::verif::point("gossip.stream.after_liveness_check").await;
+
             return Ok(GossipHandle::new(
                 topic,
                 max_message_size,
@@ -172,6 +175,9 @@ impl Gossip {
         // This guard counts the number of active handles and subscriptions for this topic. Like
         // this we can determine if we can leave the overlay.
         let guard = TopicDropGuard::new(topic, inner.actor_ref.clone());
+
+        #[cfg(p2panda_p2panda_verif)]
+        p2panda_core::verif::point("gossip.stream.after_new_guard").await;
 
         // Identify the initial nodes we can use to bootstrap ourselves into the overlay.
         let node_ids = {
@@ -199,6 +205,9 @@ impl Gossip {
         //
         // `from_gossip_tx` is used to create a broadcast receiver when the user calls
         // `subscribe()` on `GossipHandle`.
+        #[cfg(p2panda_p2panda_verif)]
+        p2panda_core::verif::point("gossip.stream.before_insert_senders").await;
+
         let mut senders = self.senders.write().await;
         senders.insert(
             topic,
@@ -226,6 +235,19 @@ impl Gossip {
         let inner = self.inner.read().await;
         let result = call!(inner.actor_ref, ToGossipManager::Events).map_err(Box::new)?;
         Ok(result)
+    }
+}
+
+#[cfg(p2panda_p2panda_verif)]
+impl Gossip {
+    /// Verification hook: builds the gossip API over a caller-supplied manager actor.
+    pub fn verif_new(
+        actor_ref: ActorRef<ToGossipManager>,
+        my_node_id: NodeId,
+        address_book: AddressBook,
+        config: GossipConfig,
+    ) -> Self {
+        Self::new(actor_ref, my_node_id, address_book, config)
     }
 }
 
